@@ -180,7 +180,7 @@ pub fn run(ctx: &Ctx) -> Report {
         }
         rep.exhaustive.push(format!("single-file length 0..={top} x 4 layer combinations"));
         // exhaustive interleavings: two files, two appends each, all orders, sizes from a boundary set
-        let sizes = [0usize, 1, CONSTS.cbuf + 1, CONSTS.chunk - 17, CONSTS.block - 34];
+        let sizes = [0usize, 1, CONSTS.cbuf + 1, CONSTS.chunk.saturating_sub(17), CONSTS.block.saturating_sub(34)];
         let orders: [[u8; 4]; 6] = [[0,0,1,1],[0,1,0,1],[0,1,1,0],[1,0,0,1],[1,0,1,0],[1,1,0,0]];
         let stride = if ctx.thorough { 1 } else { 5 };
         let mut k = 0usize;
